@@ -41,13 +41,16 @@ func doExpiration(c *kit.Ctx, x expCase) {
 	}
 	switch x.State {
 	case "live":
-		kit.Apply(ctx, w.inner, nc)
+		w.add(nc)
 	case "deleting":
 		nc.Finalizers = []string{v1.TerminationFinalizer}
-		kit.Apply(ctx, w.inner, nc)
-		markDeleting(ctx, w.inner, nc)
+		w.add(nc)
 	case "absent":
 		// the object the reconciler holds is stale: it is gone from the API
+	}
+	w.build()
+	if x.State == "deleting" {
+		markDeleting(ctx, w.inner, nc)
 	}
 	if x.State != "absent" {
 		if err := w.inner.Get(ctx, client.ObjectKeyFromObject(nc), nc); err != nil {
